@@ -27,7 +27,7 @@ from ..report import Ctx
 from ..selftest import Mutant
 
 PROP = "C05"
-TECHNIQUE = "static analysis: who-may-open-for-write rule + ordering analysis of the atomic publishing primitive + existence-guard dominance for every load + role tracing of the existing/missing lists + effect summaries (FS_WRITE/FS_DELETE) with joint branch-condition evaluation + gate like-with-like ordering rule + path-sensitive three-valued (bool | None) truthiness analysis with flag tracking + gate whole-value operands (no narrowing) + temp-file placement rule + loaded-arity rule + record-deleted-only-with-folder rule + non-exclusive temporary file + recorded-files-only loading (no directory listings) + presence decided by file name, not by entry counts + reaching-definition expansion of guard flags"
+TECHNIQUE = "static analysis: who-may-open-for-write rule + ordering analysis of the atomic publishing primitive + existence-guard dominance for every load + role tracing of the existing/missing lists + effect summaries (FS_WRITE/FS_DELETE) with joint branch-condition evaluation + gate like-with-like ordering rule + path-sensitive three-valued (bool | None) truthiness analysis with flag tracking + gate whole-value operands (no narrowing) + temp-file placement rule + loaded-arity rule + record-deleted-only-with-folder rule + non-exclusive temporary file + recorded-files-only loading (no directory listings) + presence decided by file name, not by entry counts + reaching-definition expansion of guard flags + exists-flag of _load_from_store via reaching definitions (asked of the store, never read off the loaded value)"
 EXPLANATION = (
     "Static analysis: a who-may-open-for-write rule over the modules that touch a run folder, a shape/ordering analysis "
     "of the one publishing primitive (temporary sibling, close, single atomic replace), dominance of every load by an "
